@@ -33,8 +33,12 @@ SampleDelay(kdm, f, fref, rate) == RMul(Delay(kdm, f, fref), rate)   \* samples
 
 \* chirp: phase in cycles, H = exp(-2 pi i phase)
 ChirpDelta(f, fref) == RSub(RInv(fref), RInv(f))
-ChirpPhase(kdm, f, fref) ==
-  LET d == ChirpDelta(f, fref) IN RMul(RMul(kdm, f), RMul(d, d))
+\* from the inverse reference ir = 1/fref; ir = 0 is the reference at infinite
+\* frequency (the convention time_delay uses): phase = K DM / f
+ChirpPhaseI(kdm, f, ir) == LET d == RSub(ir, RInv(f)) IN RMul(RMul(kdm, f), RMul(d, d))
+ChirpPhase(kdm, f, fref) == ChirpPhaseI(kdm, f, RInv(fref))
+ChirpPhaseInf(kdm, f) == ChirpPhaseI(kdm, f, RZero)
+SampleDelayInf(kdm, f, rate) == RMul(DelayI(kdm, InvSq(f), RZero), rate)
 ChirpH(phase) == LET cs == CosSin(phase) IN C(cs.c, Neg(cs.s))
 \* absolute frequency of DFT bin k (0-based index) of a channel centred at fc
 BinFreq(fc, k, N, dt) == RAdd(fc, RDiv(RI(FftBin(k, N)), RMul(RI(N), dt)))
@@ -113,6 +117,43 @@ SampleDelayAgrees(kdm, f, fref, rate) ==
   LET x == SampleDelay(kdm, f, fref, rate)
   IN RClose(DelayFixRat(SampleDelayFix(kdm, f, fref, rate)), x,
             RAdd(RPow2(-45), RMul(RAbs(x), RPow2(-100))))
+
+\* The same three for the reference at infinite frequency (1/fref = 0):
+\* phase = K DM / f,  K|DM| |1/f| g,  delay = K DM rate / f^2
+ChirpPhaseFixInf(kdm, f) ==
+  BFQuot(BFMul(BFOf(kdm.p, BFL), BFOf(f.q, BFL), BFL), BFMul(BFOf(kdm.q, BFL), BFOf(f.p, BFL), BFL), PFBITS)
+ChirpSlopeFixInf(kdm, f, g, s) ==
+  LET M(x, y) == BFMul(x, y, 3)
+      O(b) == BFOf(b, 3)
+      q == BFQuot(M(M(O(Abs(kdm.p)), O(f.q)), O(g.p)), M(M(O(kdm.q), O(f.p)), O(g.q)), s)
+  IN Add(Add(q, Mk(FALSE, NShr(q.m, 20))), FromInt(2))
+SampleDelayFixInf(kdm, f, rate) ==
+  LET M(x, y) == BFMul(x, y, BFL)
+      O(x) == BFOf(x, BFL)
+      fq == O(f.q)  fp == O(f.p)
+  IN BFQuot(M(M(O(kdm.p), O(rate.p)), M(fq, fq)), M(M(O(kdm.q), O(rate.q)), M(fp, fp)), DFBITS)
+
+\* A reference frequency is a record [inf |-> BOOLEAN, v |-> Rat]; the
+\* operators below dispatch on it.  rho = (|fc| + |bin|) / f enters the budget
+\* g = rho (f |D| + 1 + f / fref), D = 1/fref - 1/f  (Trace_Dedisp header):
+\* (|f - fref| + fref + f) / fref for a finite reference, 2 at infinity.
+RefOf(v, inf) == [inf |-> inf, v |-> v]
+PhaseFixR(kdm, f, ref) == IF ref.inf THEN ChirpPhaseFixInf(kdm, f) ELSE ChirpPhaseFix(kdm, f, ref.v)
+SlopeFixR(kdm, f, ref, rho, s) ==
+  IF ref.inf THEN ChirpSlopeFixInf(kdm, f, RMul(rho, RI(2)), s)
+  ELSE ChirpSlopeFix(kdm, f, ref.v,
+                     RMul(rho, RDiv(RAdd(RAbs(RSub(f, ref.v)), RAdd(ref.v, f)), ref.v)), s)
+PhaseExactR(kdm, f, ref) == IF ref.inf THEN ChirpPhaseInf(kdm, f) ELSE ChirpPhase(kdm, f, ref.v)
+PhaseAgreesR(kdm, f, ref) ==
+  RClose(PhaseFixRat(PhaseFixR(kdm, f, ref)), PhaseExactR(kdm, f, ref),
+         RAdd(RPow2(-75), RMul(RAbs(PhaseExactR(kdm, f, ref)), RPow2(-100))))
+DelayFixR(kdm, f, ref, rate) ==
+  IF ref.inf THEN SampleDelayFixInf(kdm, f, rate) ELSE SampleDelayFix(kdm, f, ref.v, rate)
+DelayExactR(kdm, f, ref, rate) ==
+  IF ref.inf THEN SampleDelayInf(kdm, f, rate) ELSE SampleDelay(kdm, f, ref.v, rate)
+DelayAgreesR(kdm, f, ref, rate) ==
+  LET x == DelayExactR(kdm, f, ref, rate)
+  IN RClose(DelayFixRat(DelayFixR(kdm, f, ref, rate)), x, RAdd(RPow2(-45), RMul(RAbs(x), RPow2(-100))))
 
 \* cos / sin of v / 2^75 cycles (v any BigInt): Fix!CosSin for a dyadic
 \* argument, with shifts in place of long divisions.  frac = v mod 2^75 has
